@@ -548,6 +548,16 @@ class Interp(object):
             base = self.ev(t.value, st)
             k = self.ev(t.slice, st) if not isinstance(t.slice, ast.Slice) else UNK
             self.event("store_sub", norm(t.value), stmt, args=(base, k, v))
+            if isinstance(t.slice, ast.Slice) and isinstance(base, (bytearray, list)):
+                parts = [self.ev(x, st) if x is not None else None
+                         for x in (t.slice.lower, t.slice.upper, t.slice.step)]
+                okb = all(p is None or (isinstance(p, int) and not isinstance(p, bool)) for p in parts)
+                if okb and isinstance(base, bytearray) and isinstance(v, (bytes, bytearray)):
+                    base[slice(*parts)] = v
+                    return
+                if okb and isinstance(base, list) and isinstance(v, (list, tuple)):
+                    base[slice(*parts)] = list(v)
+                    return
             if isinstance(base, dict) and is_concrete(k):
                 try:
                     base[k] = v
